@@ -56,6 +56,10 @@ func Run(args map[string]string) {
 				cases = append(cases, generate(prop, stream, sr.Fork(uint64(i)), i))
 			}
 		}
+		if prop == "c02" {
+			cases = c02Cases(rng, hutil.ArgInt(args, "n", 10), hutil.ArgInt(args, "thorough", 0) == 1)
+			goto run
+		}
 		add("clean", hutil.ArgInt(args, "n", 10))
 		add("malformed", hutil.ArgInt(args, "m", 0))
 		for _, s := range streams(prop) {
@@ -63,6 +67,7 @@ func Run(args map[string]string) {
 		}
 		cases = append(cases, fixed(prop)...)
 	}
+run:
 	for i := range cases {
 		cases[i].Trace = atrun.Run(cases[i].Scenario)
 	}
